@@ -79,6 +79,9 @@ def diff_inputs():
     data = ("commit %s\nAuthor: A\n\n    msg\n---\n f0.txt | 2 +-\n 1 file changed, 1 insertion(+), 1 deletion(-)\n\n"
             % H40).encode() + out[0][1]
     out.append(("commit+stat+" + out[0][0], data, out[0][2]))
+    # the same log as `git log --color=always` hands it over (commit line and headers coloured)
+    col = ("\x1b[33mcommit %s\x1b[m\x1b[33m (\x1b[m\x1b[1;36mHEAD\x1b[m\x1b[33m)\x1b[m\nAuthor: A\n\n    msg\n\n" % H40).encode() + out[0][1]
+    out.append(("coloured-commit+" + out[0][0], col, out[0][2]))
     return out
 
 
@@ -225,7 +228,14 @@ def main(tier):
     views = [("unified", {}), ("ln", {"line-numbers": True}), ("sbs", {"side-by-side": True, "width": "60"}),
              ("sbs-narrow", {"side-by-side": True, "width": "30", "wrap-max-lines": "1"}),
              ("hunk-file", {"hunk-header-style": "file line-number 110", "line-numbers": True}),
-             ("navigate", {"navigate": True}), ("box", {"file-decoration-style": "117 box"})]
+             ("navigate", {"navigate": True}), ("box", {"file-decoration-style": "117 box"}),
+             # a raw commit line keeps git's colours, with or without the link around the hash
+             ("commit-raw-ul", {"commit-style": "raw", "commit-decoration-style": "119 ul"}),
+             ("commit-raw-box", {"commit-style": "raw", "commit-decoration-style": "119 box", "side-by-side": True,
+                                 "width": "60"}),
+             # --file-transformation changes what is displayed, never what is linked
+             ("hunk-file-transformed", {"hunk-header-style": "file line-number 110", "line-numbers": True,
+                                        "file-transformation": "s,f,Xf/,"})]
     for vname, vo in views:
         for tpl in FILE_TEMPLATES:
             for prefix in (None, "sub/dir/"):
@@ -253,6 +263,12 @@ def main(tier):
                               None, [g], tpl, "grep", base))
             tasks.append(("blame,tpl=%s,prefix=%s" % (tpl, prefix), {}, env, ["git", "blame", "f.rs"], None,
                           [(b[0], b[1], [])], tpl, "blame", base))
+            # commit links in blame rows exist on a terminal only; formats that pad / cut the commit field
+            for bf in (None, "{commit:<12} {author:<10}", "{timestamp:<15} {author:<15.14} {commit:>12}",
+                       "{commit:^14.9}|{author:<6.5}"):
+                bo = {"blame-format": bf} if bf else {}
+                tasks.append(("blame,pty,tpl=%s,prefix=%s,format=%s" % (tpl, prefix, bf), bo, env,
+                              ["git", "blame", "f.rs"], (24, 100), [(b[0], b[1], [])], tpl, "blame", base))
     res = explore.pmap(run_task, [t + (deadline,) for t in tasks])
     n = sum(r["n"] for r in res)
     links = sum(r["links"] for r in res)
